@@ -1042,7 +1042,7 @@ package machine
 
 // The transition executor.
 //@ func (t *Transition) emitEvents() (res Result)
-//@   props C01 C03 C05 C06 C07 C08 C14 C12
+//@   props C01 C02 C03 C05 C06 C07 C08 C14 C12
 //@   owner
 //@   abstracts the onChange callback and tracer callbacks are opaque (assumed not to assign machine state)
 //@   requires tx:    TxInv(t) && TargetOK(t) && t.cacheStatesBefore != nil && t.Machine.t == t && t.Machine.resolver != nil && t.Machine.subs != nil
@@ -1142,7 +1142,7 @@ package machine
 //@   ensures  backoff:   m.Backoff() ==> r == Canceled && unchanged(m.queue, m.queueTick, m.activeStates) && mapeq(m.clock, old(m.clock))
 
 //@ func (t *Transition) setupAccepted()
-//@   props C03 C07
+//@   props C02 C03 C07
 //@   requires nn:     t.Machine != nil && t.Mutation != nil && t.cacheTargetStates != nil && t.Mutation.cacheCalled != nil
 //@   assigns  t.IsAccepted
 //@   ensures  remove:  t.Mutation.Type == MutationRemove ==> t.IsAccepted == old(t.IsAccepted)
